@@ -369,6 +369,12 @@ pub fn run(ctx: &Ctx, rep: &mut Report) {
                 }
             }
         }
+        // the CLI has a resolver of its own (the documents matched by the glob, indexed by path): `check` must accept a
+        // fault-free graph whatever its files hold (fragments, operations only, nothing but imports)
+        if case % 16 == 8 && fault == "none" {
+            rep.count("cli_route_runs");
+            rep.violations(cli_route(ctx, case, &files));
+        }
         // permuting the import lines of every file must not change the set of definitions
         if case % 4 == 0 {
             let permuted: Vec<(String, String)> = files
@@ -389,10 +395,40 @@ pub fn run(ctx: &Ctx, rep: &mut Report) {
     }
 }
 
-pub fn replay(case: &Value) -> Vec<Violation> {
+/// the import graph as a project on disk under <scratch>/fs (absolute import spellings are re-rooted there), checked by
+/// the real CLI against a schema in which every fragment and spread of the graph is valid
+pub fn cli_route(ctx: &Ctx, n: u64, files: &[(String, String)]) -> Vec<Violation> {
+    use crate::cli;
+    let dir = cli::scratch_dir(&ctx.out, "c13", n);
+    let base = format!("{}/fs", dir.to_string_lossy());
+    let fields: String = (0..PATHS.len()).map(|i| format!(" x{i}: Int")).collect();
+    let mut proj: Vec<(String, String)> = vec![
+        ("schema.graphql".to_string(), format!("interface T {{{fields} }}\ntype Query implements T {{ a: Int b: Int{fields} }}\n")),
+        ("graphql.config.yaml".to_string(), "schema: ./schema.graphql\ndocuments: ./fs/**/*.graphql\n".to_string()),
+    ];
+    for (p, t) in files {
+        proj.push((format!("fs{p}"), t.replace("from \"/", &format!("from \"{base}/"))));
+    }
+    let mut out = vec![];
+    if cli::write_project(&dir, &proj).is_ok() {
+        let r = cli::run_cli(&ctx.cli, &dir, &["check", "--output-format", "json"], std::time::Duration::from_secs(60));
+        if r.status != Some(0) || r.panicked().is_some() {
+            let msg = serde_json::from_str::<Value>(r.stdout.trim()).ok().and_then(|v| v["check"]["errors"][0]["message"].as_str().map(|s| s.to_string())).unwrap_or_else(|| clip(&r.stderr, 200));
+            let class = if msg.contains("not found.") { "file-not-found" } else if msg.contains("is not found in the imported file") { "fragment-not-found" } else if r.panicked().is_some() { "panic" } else { "other" };
+            out.push(Violation { sig: format!("C13|cli|fails-without-fault|{class}"), detail: format!("nitrogql-cli check (exit {:?}) on a fault-free import graph: {} - files {:?}", r.status, clip(&msg, 300), clip(&format!("{files:?}"), 600)), replay: json!({"property":"C13","kind":"cli","files":files.iter().map(|(a,b)| json!([a,b])).collect::<Vec<_>>()}) });
+        }
+    }
+    cli::cleanup(&dir);
+    out
+}
+
+pub fn replay(case: &Value, ctx: &Ctx) -> Vec<Violation> {
     let files: Vec<(String, String)> = case["files"].as_array().map(|a| a.iter().map(|x| (x[0].as_str().unwrap_or("").to_string(), x[1].as_str().unwrap_or("").to_string())).collect()).unwrap_or_default();
     if files.is_empty() {
         return vec![];
+    }
+    if case["kind"].as_str() == Some("cli") {
+        return cli_route(ctx, 0, &files);
     }
     if case["kind"].as_str() == Some("loader") {
         let map: std::collections::BTreeMap<String, String> = files.iter().cloned().collect();
